@@ -52,6 +52,7 @@ class Run:
         self.diverges = d["diverges"]
         self.frames = d["frames"]
         self.self_out = d["self_out"]
+        self.dt = d.get("dt", 0.0)
         self.reached = d["reached"]
         self.edges = d["edges"]
 
